@@ -26,4 +26,68 @@ func init() {
 			return out
 		},
 		Tune: func(in *exec.Instance, tier string) { in.VCBatch = 16 }})
+
+	colReal := []string{"utils.New1DCodeWithColor", "(*utils.base1DCode).At/Bounds/Content/Metadata/ColorModel/ColorScheme", "(*utils.BitList).AddBit/GetBit"}
+	reg(&Oblig{ID: "CODABAR", Pkg: "codabar", Func: "VP_CODABAR", Props: []string{"C08", "C10", "C11"},
+		Desc:  "Codabar: accepted exactly for <A-D><0-9-$:/.+>*<A-D>; every module equals the spec encoder (7 elements per character, wide = 2 modules, 1-module gaps); content, metadata, colours",
+		Real:  append([]string{"codabar.Encode", "codabar.EncodeWithColor"}, colReal...),
+		Stubs: []string{"regexp.Compile + ReplaceAllString modelled: the pattern constant found in the SSA is parsed with regexp/syntax and turned into a Boolean match term over the symbolic bytes (subset: literals, ASCII classes, * + ?, concatenation, alternation, trailing $); leftmost match start forked", "oracle: 20-character element-width table (transcription of the symbology table)"},
+		Bound: "content = n fully symbolic bytes, n in 0..5 (quick) / 0..7 (thorough)",
+		Configs: func(tier string, seed int64) []map[string]int {
+			var out []map[string]int
+			top := 5
+			if tier == "thorough" {
+				top = 7
+			}
+			for n := 0; n <= top; n++ {
+				out = append(out, map[string]int{"n": n, "color": n % 2})
+			}
+			out = append(out, map[string]int{"n": 3, "color": 0}, map[string]int{"n": 2, "color": 1})
+			return out
+		}})
+	tofCfg := func(tier string, seed int64) []map[string]int {
+		var out []map[string]int
+		top := 3
+		if tier == "thorough" {
+			top = 4
+		}
+		for il := 0; il <= 1; il++ {
+			for n := 0; n <= top+il; n++ {
+				for d := 0; d <= 1; d++ {
+					if n == 0 && d == 0 {
+						continue
+					}
+					if d == 1 && il == 1 && n%2 == 0 && n > top {
+						continue
+					}
+					out = append(out, map[string]int{"n": n, "il": il, "digits": d, "color": (n + il) % 2})
+				}
+			}
+		}
+		return out
+	}
+	reg(&Oblig{ID: "TOF", Pkg: "twooffive", Func: "VP_TOF", Props: []string{"C08", "C10", "C11"},
+		Desc:  "2 of 5 standard and interleaved: accepted exactly for non-empty digit strings (even length when interleaved); every module equals the spec encoder (2-of-5 code, wide = 3, start/stop patterns, interleaved pairing); content, metadata, colours",
+		Real:  append([]string{"twooffive.Encode", "twooffive.EncodeWithColor"}, colReal...),
+		Stubs: []string{"input space split by assumption into all-digits / some-non-digit instances", "oracle: 2-of-5 code from the weights 1-2-4-7-parity construction"},
+		Bound: "content = n fully symbolic bytes; n in 0..3 standard, 0..4 interleaved (quick; the implementation forks into every digit value, 10^n paths), one more in thorough",
+		Configs: tofCfg})
+	reg(&Oblig{ID: "TOF-cs", Pkg: "twooffive", Func: "VP_TOF_checksum", Props: []string{"C08", "C10"},
+		Desc:  "AddCheckSum: input kept, one digit appended that makes the 3-1 weighted sum a multiple of ten; empty / non-digit input rejected",
+		Real:  []string{"twooffive.AddCheckSum", "utils.RuneToInt", "utils.IntToRune"},
+		Bound: "n fully symbolic bytes, n in 0..8 (quick) / 0..14 (thorough)",
+		Configs: func(tier string, seed int64) []map[string]int {
+			var out []map[string]int
+			top := 8
+			if tier == "thorough" {
+				top = 14
+			}
+			for n := 0; n <= top; n++ {
+				out = append(out, map[string]int{"n": n, "digits": 1})
+				if n > 0 && n <= 5 {
+					out = append(out, map[string]int{"n": n, "digits": 0})
+				}
+			}
+			return out
+		}})
 }
